@@ -193,7 +193,10 @@ def run(ctx, rep):
     rep.check(lad == {"utils.PRICES": "'CLASSIC'", "utils.FINEST_PRICES": "'FINEST'", "prices": "'LINE_RANGE'"}, "R2",
               key(f, None, "each ladder definition is checked against its own ladder"), f, None, str(lad))
     lp = [s for s in walk_nodes(f.node.body, ast.Assign) if utext(s.targets[0]) == "prices"]
-    rep.check(len(lp) == 1 and " ".join(utext(lp[0].value).split()) ==
+    lpv = lp[0].value if len(lp) == 1 else None
+    if isinstance(lpv, ast.Call) and isinstance(lpv.func, ast.Name) and lpv.func.id in ("tuple", "list", "frozenset", "set") and len(lpv.args) == 1:
+        lpv = lpv.args[0]   # the same members in another container
+    rep.check(lpv is not None and " ".join(utext(lpv).split()) ==
               "utils.make_line_prices(order.order_type.line_range_info.min_unit_value, order.order_type.line_range_info.max_unit_value, order.order_type.line_range_info.interval)",
               "R2", key(f, None, "the line ladder is built from the market's own range and interval"), f)
     from rules.c01 import control_always_validates
